@@ -454,6 +454,11 @@ def post_add(node: StorageNode, file_: ArchiveFile) -> None:
         StorageTransferAction.node_from != node,
         StorageTransferAction.autoclean == True,  # noqa: E712
     ):
+        # Ignore self-loops: a rule whose source node is itself in the
+        # destination group (even if it's not the node receiving the file)
+        if edge.self_loop:
+            continue
+
         count = (
             ArchiveFileCopy.update(wants_file="N", last_update=utcnow())
             .where(
